@@ -664,3 +664,157 @@ Print Assumptions C06_ilu0_closed_pattern_exact_solve_Qc.
    above hold, the multiplier of ILU(0) is B * A^-1 and not A^-1 * B, right products leave the vector shape *)
 Example C06_nc_nonvacuous_noncommuting_blocks : nb_check = true.
 Proof. exact nb_check_ok. Qed.
+
+(* =====================================================================================
+   8. CHEBYSHEV: THE ERROR PROPAGATION POLYNOMIAL (ChebyPoly.v; hypotheses satisfiable: ChebyPolyQc.v).
+   B = A, or diag(A)^-1 A when scale (ChebyPoly.Bop); Z = (d I - B)/c (Zop); T_k the Chebyshev polynomials given by
+   their recurrence (cheb: T_0 = 1, T_1 = z, T_{k+2} = 2 z T_{k+1} - T_k); T_k(Z) v = Tz k v (the recurrence applied to
+   the vector v); tau_k = T_k(d/c).  The three-term recurrence of chebyshev.hpp IS the Chebyshev recurrence
+   (alpha_k = 2 tau_k/(c tau_{k+1}), beta_k = alpha_k d - 1 = tau_{k-1}/tau_{k+1}), so that for every exact solution
+   x* of A x = b and every degree k
+         tau_k (x* - sweep_k(b, x0)) = T_k(Z) (x* - x0),      i.e.   E_k(B) = T_k((d I - B)/c) / T_k(d/c).
+   Field laws as hypotheses; c, 1+1, d and tau_1..tau_k non-zero -- which cannot fail in an ordered field for the (c, d)
+   the constructor computes from hi0 > 0, 0 <= lower < higher (last theorem of the section).
+   ===================================================================================== *)
+From Amgcl Require Import AmgOrder ChebyPoly ChebyPolyQc.
+
+Section ChebyshevPolynomial.
+Variable S : Scalar.
+Hypothesis Sft : Sfield S.
+Hypothesis Seqb : seqb_spec S.
+Variables (c d : S) (M : option (vec S)) (A : crs S).
+Hypothesis Nc : c <> s0.
+Hypothesis N2 : @c_two S <> s0.
+
+(* the coefficients computed by the code are the Chebyshev coefficients (k = 1 from the closed formula, k >= 2 from
+   alpha_{k-1}); beta = alpha d - 1 in both *)
+Theorem C06_cheby_coefficients_are_chebyshev :
+  (forall alpha, tau c d 2 <> s0 ->
+     cheby_coef c_two c_quarter c d 1 alpha =
+     (c_two * tau c d 1 / (c * tau c d 2), c_two * tau c d 1 / (c * tau c d 2) * d - s1)) /\
+  (forall K k alpha, tau c d (Datatypes.S k) <> s0 -> tau c d (Datatypes.S (Datatypes.S k)) <> s0 ->
+     alpha = c_two * tau c d k / (c * tau c d (Datatypes.S k)) ->
+     cheby_coef c_two c_quarter c d (Datatypes.S (Datatypes.S K)) alpha =
+     (c_two * tau c d (Datatypes.S k) / (c * tau c d (Datatypes.S (Datatypes.S k))),
+      c_two * tau c d (Datatypes.S k) / (c * tau c d (Datatypes.S (Datatypes.S k))) * d - s1)).
+Proof. exact (conj (coef_1 Sft c d Nc) (coef_k Sft c d Nc N2)). Qed.
+
+(* T_k(Z) on an eigenvector of B *)
+Theorem C06_cheby_polynomial_on_eigenvector (lam : S) (v : vec S) : length v = nrows A ->
+  (forall i, i < nrows A -> vget (Bop M A v) i = lam * vget v i) ->
+  forall k i, i < nrows A -> vget (Tz c d M A k v) i = cheb ((d - lam) / c) k * vget v i.
+Proof. exact (Tz_eigenvector Sft c d M A lam v). Qed.
+
+Hypothesis Nd : d <> s0.
+Hypothesis Hwf : wf A = true.
+Hypothesis HM : forall m, M = Some m -> length m = nrows A.
+
+(* THE THEOREM (p, r: the uninitialised workspaces of the object) *)
+Theorem C06_cheby_error_polynomial (b xs x0 : vec S) degree (p r : vec S) :
+  length b = nrows A -> length xs = nrows A -> length x0 = nrows A -> length p = nrows A -> length r = nrows A ->
+  (forall i, i < nrows A -> Ax A xs i = vget b i) ->
+  (forall m, 1 <= m -> m <= degree -> tau c d m <> s0) ->
+  forall i, i < nrows A ->
+    tau c d degree * (vget xs i - vget (cheby_sweep (c, d, M) degree A b x0 p r) i)
+    = vget (Tz c d M A degree (errv A xs x0)) i.
+Proof.
+  exact (fun Lb Lxs Lx0 Lp Lr Hsol =>
+    cheby_sweep_error_polynomial Sft Seqb c d M A Nc N2 b xs x0 Hwf Lb Lxs Lx0 HM Hsol Nd degree p r Lp Lr).
+Qed.
+
+(* corollary: an error that is an eigenvector of B for lambda is multiplied by T_k((d - lambda)/c) / T_k(d/c) *)
+Theorem C06_cheby_error_polynomial_eigenvector (b xs x0 : vec S) degree (lam : S) (p r : vec S) :
+  length b = nrows A -> length xs = nrows A -> length x0 = nrows A -> length p = nrows A -> length r = nrows A ->
+  (forall i, i < nrows A -> Ax A xs i = vget b i) ->
+  (forall m, 1 <= m -> m <= degree -> tau c d m <> s0) ->
+  (forall i, i < nrows A -> vget (Bop M A (errv A xs x0)) i = lam * (vget xs i - vget x0 i)) ->
+  forall i, i < nrows A ->
+    vget xs i - vget (cheby_sweep (c, d, M) degree A b x0 p r) i
+    = cheb ((d - lam) / c) degree / tau c d degree * (vget xs i - vget x0 i).
+Proof.
+  exact (fun Lb Lxs Lx0 Lp Lr Hsol =>
+    cheby_sweep_eigenvector Sft Seqb c d M A Nc N2 b xs x0 Hwf Lb Lxs Lx0 HM Hsol Nd degree lam p r Lp Lr).
+Qed.
+
+(* without an exact solution: the sweep is affine in x with linear part E_k(B) -- two sweeps with the same right-hand
+   side differ by E_k(B) applied to the difference of the initial vectors; the homogeneous sweep is E_k(B) itself *)
+Theorem C06_cheby_sweep_affine_with_polynomial_linear_part degree (b x y p r p1 r1 : vec S) :
+  length b = nrows A -> length x = nrows A -> length y = nrows A ->
+  length p = nrows A -> length r = nrows A -> length p1 = nrows A -> length r1 = nrows A ->
+  (forall m, 1 <= m -> m <= degree -> tau c d m <> s0) ->
+  forall i, i < nrows A ->
+    tau c d degree * (vget (cheby_sweep (c, d, M) degree A b x p r) i - vget (cheby_sweep (c, d, M) degree A b y p1 r1) i)
+    = vget (Tz c d M A degree (mkvec (nrows A) (fun j => vget x j - vget y j))) i.
+Proof. exact (cheby_sweep_affine_polynomial Sft Seqb c d M A Nc N2 Nd Hwf HM degree b x y p r p1 r1). Qed.
+
+Theorem C06_cheby_homogeneous_sweep_is_polynomial degree (z e p r : vec S) :
+  length z = nrows A -> length e = nrows A -> length p = nrows A -> length r = nrows A ->
+  (forall i, i < nrows A -> vget z i = s0) ->
+  (forall m, 1 <= m -> m <= degree -> tau c d m <> s0) ->
+  forall i, i < nrows A ->
+    tau c d degree * vget (cheby_sweep (c, d, M) degree A z e p r) i = vget (Tz c d M A degree e) i.
+Proof. exact (cheby_sweep_homogeneous Sft Seqb c d M A Nc N2 Nd Hwf HM degree z e p r). Qed.
+End ChebyshevPolynomial.
+Print Assumptions C06_cheby_coefficients_are_chebyshev.
+Print Assumptions C06_cheby_polynomial_on_eigenvector.
+Print Assumptions C06_cheby_error_polynomial.
+Print Assumptions C06_cheby_error_polynomial_eigenvector.
+Print Assumptions C06_cheby_sweep_affine_with_polynomial_linear_part.
+Print Assumptions C06_cheby_homogeneous_sweep_is_polynomial.
+
+(* ordered field: the (c, d) of the constructor satisfy 0 < c <= d, then tau_k >= 1 for every k and 1 + 1 <> 0:
+   every non-vanishing hypothesis above holds *)
+Theorem C06_cheby_polynomial_hypotheses_hold_in_ordered_field (S : Scalar) (Sft : Sfield S) (Ord : ordered S)
+        (hi0 lower higher : S) :
+  olt s0 hi0 -> ole s0 lower -> olt lower higher ->
+  let '(c, d) := cheby_cd c_half hi0 lower higher in
+  c <> s0 /\ d <> s0 /\ @c_two S <> s0 /\ forall k, ole s1 (tau c d k) /\ tau c d k <> s0.
+Proof.
+  exact (fun Hh Hl Hlh =>
+    (let '(c, d) as cd return ((let '(c, d) := cd in olt s0 c /\ ole c d /\ d <> s0) ->
+                               let '(c, d) := cd in c <> s0 /\ d <> s0 /\ @c_two S <> s0 /\
+                                                    forall k, ole s1 (tau c d k) /\ tau c d k <> s0)
+       := cheby_cd c_half hi0 lower higher in
+     fun H => conj (pos_neq0 Ord c (proj1 H))
+             (conj (proj2 (proj2 H)) (conj (two_neq0 Sft Ord) (tau_nonzero Sft Ord c d (proj1 H) (proj1 (proj2 H))))))
+    (cheby_cd_ordered Sft Ord hi0 lower higher Hh Hl Hlh)).
+Qed.
+Print Assumptions C06_cheby_polynomial_hypotheses_hold_in_ordered_field.
+
+(* closed instance at the exact rationals *)
+Theorem C06_cheby_error_polynomial_Qc (c d : QcS) (M : option (vec QcS)) (A : crs QcS) (b xs x0 : vec QcS) degree (p r : vec QcS) :
+  c <> s0 -> d <> s0 -> wf A = true -> (forall m, M = Some m -> length m = nrows A) ->
+  length b = nrows A -> length xs = nrows A -> length x0 = nrows A -> length p = nrows A -> length r = nrows A ->
+  (forall i, i < nrows A -> Ax A xs i = vget b i) ->
+  (forall m, 1 <= m -> m <= degree -> tau c d m <> s0) ->
+  forall i, i < nrows A ->
+    tau c d degree * (vget xs i - vget (cheby_sweep (c, d, M) degree A b x0 p r) i)
+    = vget (Tz c d M A degree (errv A xs x0)) i.
+Proof.
+  exact (fun Nc Nd Hwf HM =>
+    C06_cheby_error_polynomial QcS QcS_field QcS_eqb c d M A Nc (two_neq0 QcS_field QcS_ordered_cp) Nd Hwf HM b xs x0 degree p r).
+Qed.
+Print Assumptions C06_cheby_error_polynomial_Qc.
+
+(* hypotheses satisfiable + the conclusions at Qc: A = tridiag(-1, 2, -1), (c, d, M) from the constructor model with the
+   Gershgorin radius, lower = 1/30, higher = 1, scale off and on, degree 2 and 3; eigenvector (1, 0, -1) *)
+Example C06_cheby_error_polynomial_hypotheses_satisfiable scale :
+  Sfield QcS /\ seqb_spec QcS /\ cP scale <> s0 /\ @c_two QcS <> s0 /\ dP scale <> s0 /\
+  wf AP = true /\ length bP = nrows AP /\ length xsP = nrows AP /\ length x0P = nrows AP /\ length junkP = nrows AP /\
+  (forall m, MP scale = Some m -> length m = nrows AP) /\
+  (forall i, i < nrows AP -> Ax AP xsP i = vget bP i) /\
+  (forall m, 1 <= m -> m <= 3 -> tau (cP scale) (dP scale) m <> s0).
+Proof. exact (cheby_error_polynomial_hypotheses_satisfiable scale). Qed.
+Example C06_cheby_error_polynomial_example scale degree : degree = 2 \/ degree = 3 ->
+  forall i, i < 3 ->
+    tau (cP scale) (dP scale) degree *
+      (vget xsP i - vget (cheby_sweep (cheby_setup scale AP (hiP scale) lowerP higherP junkP) degree AP bP x0P junkP junkP) i)
+    = vget (Tz (cP scale) (dP scale) (MP scale) AP degree (errv AP xsP x0P)) i.
+Proof. exact (cheby_error_polynomial_example scale degree). Qed.
+Example C06_cheby_eigenvector_example scale degree : degree = 2 \/ degree = 3 ->
+  (forall i, i < 3 -> vget (Bop (MP scale) AP (errv AP xsE x0E)) i = lamE scale * (vget xsE i - vget x0E i)) /\
+  (forall i, i < 3 ->
+     vget xsE i - vget (cheby_sweep (cheby_setup scale AP (hiP scale) lowerP higherP junkP) degree AP bE x0E junkP junkP) i
+     = cheb ((dP scale - lamE scale) / cP scale) degree / tau (cP scale) (dP scale) degree * (vget xsE i - vget x0E i)) /\
+  cheb ((dP false - lamE false) / cP false) 2 / tau (cP false) (dP false) 2 = qc (-839) 1081.
+Proof. exact (cheby_eigenvector_example scale degree). Qed.
